@@ -6,6 +6,7 @@ CONSTANTS
   BoundPorts = {"mock","nft","mt"}
   Data = {"d1","d2"}
   DecodableData = {"d2"}
+  EmptyData = ""
   AckTags = {"mock","unauth","errX","ok"}
   MaxSeq = 1
   F_BIND = TRUE
@@ -21,11 +22,13 @@ CONSTANTS
   UserData = {"d1"}
   RuleChains = {"B"}
   AdvOn = TRUE
-  ExpireOn = FALSE
+  ExpirePairs <- ExpireCA
+  ExportOn = FALSE
   LOG = FALSE
   SimDepth = 0
+  SimMode = "mixed"
 INIT Init
 NEXT Next
-INVARIANTS Inv_C01 Inv_C02 Inv_C03 Inv_C09 Inv_C11 Inv_C13 Inv_C10
+INVARIANTS Inv_C14 Inv_C01 Inv_C02 Inv_C03 Inv_C09 Inv_C11 Inv_C13 Inv_C10
 PROPERTIES Prop_C10mono
 CHECK_DEADLOCK FALSE
